@@ -56,6 +56,12 @@ class SS:
     def _bin(self, o, f):
         w = SS._w(o)
         if w is NotImplemented:
+            if isinstance(o, np.ndarray) and o.ndim > 0:
+                # `array <op> SS`: numpy defers to the scalar (array priority) and python then asks the reflected method: elementwise
+                out = np.empty(o.shape, dtype=object)
+                for idx, x in np.ndenumerate(o):
+                    out[idx] = self._bin(x, f)
+                return out
             return NotImplemented
         c = self.cplx or isinstance(o, (complex, np.complexfloating)) or (isinstance(o, SS) and o.cplx)
         return SS(f(self.e, w), cplx=c)
